@@ -129,17 +129,20 @@ def removeHandle (l : List (Nat × Nat)) : Option Nat → List (Nat × Nat)
 
 /-- `Hook.deregister()` of monitor `mid` -/
 def deregisterMon (s : State) (mid : Nat) : State :=
-  let m := s.mons mid
-  setMon { s with post := removeHandle s.post m.handle } mid { m with handle := none }
+  setMon { s with post := removeHandle s.post (s.mons mid).handle } mid { s.mons mid with handle := none }
+
+/-- `register_forward_hook(..., prepend=b)` on the layer's ordered hook dictionary -/
+def insertPost (post : List (Nat × Nat)) (prepend : Bool) (e : Nat × Nat) : List (Nat × Nat) :=
+  if prepend then e :: post else post ++ [e]
 
 /-- `Monitor.register()` without argument: re-register on the weakly referenced layer if not
 registered (new handle at the end of the layer's hook list, at its front with `prepend`) -/
 def registerMon (s : State) (mid : Nat) : State :=
-  let m := s.mons mid
-  if m.handle.isSome then s
-  else
-    setMon { s with post := if m.prepend then (s.nextId, mid) :: s.post else s.post ++ [(s.nextId, mid)],
-                    nextId := s.nextId + 1 } mid { m with handle := some s.nextId }
+  match (s.mons mid).handle with
+  | some _ => s
+  | none =>
+    setMon { s with post := insertPost s.post (s.mons mid).prepend (s.nextId, mid), nextId := s.nextId + 1 }
+      mid { s.mons mid with handle := some s.nextId }
 
 /-- constructing a monitor through a `MonitorConstructor`: a new object, registered on the
 layer at once -/
@@ -203,33 +206,53 @@ def findAlias (s : State) (T : Trainer) (cell mname : Nat) (tags : Nat) (path : 
           else go rest found
   go T.cells none
 
+/-- `if monitor: if unique: del self.monitors_[observed][name]` — the existing entry is dropped
+WITHOUT deregistration (the object is finalised if nothing else holds it) -/
+def eraseExisting (s : State) (t n mname : Nat) : State :=
+  let T := s.trainers t
+  if ((lookup T.groups n).bind (lookup · mname)).isSome then
+    setTrainer s t { T with groups := groupsErase T.groups n mname }
+  else s
+
+/-- `Observable.add_monitor`: a new monitor (`unique`, or no alias in the pool) or the alias -/
+def obtainMonitor (s : State) (t cell mname : Nat) (unique prepend : Bool) (tags : Nat) (path : Path)
+    (reads : List Nat) : State × Nat :=
+  if unique then newMonitor s t prepend path none reads cell
+  else match findAlias s (s.trainers t) cell mname tags path with
+    | some mid => (s, mid)
+    | none => newMonitor s t prepend path (some tags) reads cell
+
+/-- `self.__monitors[name] = monitor` on the cell: overwrites another trainer's entry (D18) -/
+def writeCellMon (s : State) (cell mname mid : Nat) : State :=
+  { s with cellMons := setCellMon s.cellMons cell mname mid }
+
+/-- `if not self.training: monitor.deregister()` -/
+def deregIfEval (s : State) (t mid : Nat) : State :=
+  if (s.trainers t).training then s else deregisterMon s mid
+
+/-- `self.monitors_[observed][name] = monitor` -/
+def poolInsert (s : State) (t n mname mid : Nat) : State :=
+  setTrainer s t { s.trainers t with groups := groupsInsert (s.trainers t).groups n mname mid }
+
+/-- the tail of `add_monitor` -/
+def addMonitorTail (s : State) (t n mname mid cell : Nat) : State :=
+  poolInsert (deregIfEval (writeCellMon s cell mname mid) t mid) t n mname mid
+
 /-- `MonitorPool.add_monitor` (through `CellTrainer.add_monitor`) -/
 def addMonitor (s : State) (t n mname : Nat) (sel : AttrSel) (unique prepend : Bool) (tags : Nat)
     (reads : List Nat) : State × Out :=
-  let T := s.trainers t
-  match lookup T.cells n with
+  match lookup (s.trainers t).cells n with
   | none => (s, .err .AttributeError)                     -- not the name of an added cell
   | some cell =>
-    let existing := (lookup T.groups n).bind (lookup · mname)
-    if existing.isSome && !unique then (s, .ok)            -- the existing monitor is returned
+    if ((lookup (s.trainers t).groups n).bind (lookup · mname)).isSome && !unique then
+      (s, .ok)                                             -- the existing monitor is returned
     else
-      -- `if unique: del self.monitors_[observed][name]` (no deregistration here)
-      let T1 := if existing.isSome then { T with groups := groupsErase T.groups n mname } else T
-      let s1 := setTrainer s t T1
+      let s1 := eraseExisting s t n mname
       match realign s1 cell sel with
       | .error e => (s1, .err e)
       | .ok path =>
-        let (s2, mid) :=
-          if unique then newMonitor s1 t prepend path none reads cell
-          else match findAlias s1 T1 cell mname tags path with
-            | some mid => (s1, mid)
-            | none => newMonitor s1 t prepend path (some tags) reads cell
-        -- `self.__monitors[name] = monitor` on the cell: overwrites another trainer's entry (D18)
-        let s3 := { s2 with cellMons := setCellMon s2.cellMons cell mname mid }
-        -- `if not self.training: monitor.deregister()`
-        let s4 := if T.training then s3 else deregisterMon s3 mid
-        let T4 := s4.trainers t
-        (setTrainer s4 t { T4 with groups := groupsInsert T4.groups n mname mid }, .ok)
+        let r := obtainMonitor s1 t cell mname unique prepend tags path reads
+        (addMonitorTail r.1 t n mname r.2 cell, .ok)
 
 /-- what `register_cell` of each trainer kind adds: (monitor name, attribute, unique, prepend,
 tags, reads).  Names: 0 trace_post, 1 spike_post, 2 trace_pre, 3 spike_pre, 4 elig_post,
@@ -242,20 +265,61 @@ def template (kind v : Nat) : List (Nat × AttrSel × Bool × Bool × Nat × Lis
   if kind = 1 then base ++ [(4, .cellmons, true, false, 0, [2, 1]), (5, .cellmons, true, false, 0, [0, 3])]
   else base
 
+/-- the `add_monitor` calls of `register_cell`, in order -/
+def addTemplate (s : State) (t n : Nat) (tpl : List (Nat × AttrSel × Bool × Bool × Nat × List Nat)) : State :=
+  tpl.foldl (fun s e => (addMonitor s t n e.1 e.2.1 e.2.2.1 e.2.2.2.1 e.2.2.2.2.1 e.2.2.2.2.2).1) s
+
 /-- monitor names `trainer()` reads for each cell -/
 def required (kind : Nat) : List Nat := if kind = 1 then [4, 5] else [0, 1, 2, 3]
+
+/-- `for monitor in group: if id(monitor) not in shared: monitor.deregister()` -/
+def deregisterUnshared (s : State) (shared : List Nat) (g : List (Nat × Nat)) : State :=
+  g.foldl (fun s e => if shared.contains e.2 then s else deregisterMon s e.2) s
+
+/-- the monitors held by the OTHER groups of a pool -/
+def otherMids (T : Trainer) (n : Nat) : List Nat :=
+  (T.groups.filter (fun g' => g'.1 != n)).flatMap (fun g' => g'.2.map (·.2))
+
+/-- `del self.monitors_[name]` -/
+def dropGroup (s : State) (t n : Nat) : State :=
+  setTrainer s t { s.trainers t with groups := (s.trainers t).groups.filter (fun g' => g'.1 != n) }
 
 /-- `MonitorPool.del_observed`: deregister the group's monitors no surviving group aliases
 (the D17 repair), drop the group -/
 def delObserved (s : State) (t n : Nat) : State :=
-  let T := s.trainers t
-  match lookup T.groups n with
+  match lookup (s.trainers t).groups n with
   | none => s
-  | some g =>
-    let shared := (T.groups.filter (fun g' => g'.1 != n)).flatMap (fun g' => g'.2.map (·.2))
-    let s1 := g.foldl (fun s e => if shared.contains e.2 then s else deregisterMon s e.2) s
-    let T1 := s1.trainers t
-    setTrainer s1 t { T1 with groups := T1.groups.filter (fun g' => g'.1 != n) }
+  | some g => dropGroup (deregisterUnshared s (otherMids (s.trainers t) n) g) t n
+
+/-- `for monitor in pool.monitors: monitor.register()` / `monitor.deregister()` -/
+def setAll (s : State) (mode : Bool) (l : List Nat) : State :=
+  l.foldl (fun s mid => if mode then registerMon s mid else deregisterMon s mid) s
+
+/-- `del self.monitors_[observed][monitor]` -/
+def eraseEntry (s : State) (t n mname : Nat) : State :=
+  setTrainer s t { s.trainers t with groups := groupsErase (s.trainers t).groups n mname }
+
+/-- `if not any(m is target for g in self.monitors_.values() for m in g.values()): target.deregister()`
+(the D17 repair) -/
+def deregIfUnaliased (s : State) (t mid : Nat) : State :=
+  if (poolMids (s.trainers t)).contains mid then s else deregisterMon s mid
+
+/-- `if not len(self.monitors_[observed]): del self.monitors_[observed]` -/
+def dropEmptyGroup (s : State) (t n : Nat) : State :=
+  setTrainer s t { s.trainers t with
+    groups := (s.trainers t).groups.filter (fun g' => !(g'.1 == n && g'.2.isEmpty)) }
+
+/-- `MonitorPool.del_monitor` once the entry is known to exist -/
+def delEntry (s : State) (t n mname mid : Nat) : State :=
+  dropEmptyGroup (deregIfUnaliased (eraseEntry s t n mname) t mid) t n
+
+/-- `self.cells_[name] = cell; self.monitor_pool_.add_observed(name, cell)` -/
+def addCellEntry (s : State) (t n c : Nat) : State :=
+  setTrainer s t { s.trainers t with cells := (s.trainers t).cells ++ [(n, c)] }
+
+/-- `del self.cells_[name]` -/
+def dropCell (s : State) (t n : Nat) : State :=
+  setTrainer s t { s.trainers t with cells := (s.trainers t).cells.filter (fun e => e.1 != n) }
 
 /-- hooks run in list order until one raises: a MultiStateMonitor whose `cell.monitors.<name>`
 does not resolve raises `AttributeError` -/
@@ -283,91 +347,77 @@ def monHasData (s : State) (T : Trainer) (n r : Nat) : Bool :=
   | some mid => decide ((s.mons mid).count > 0)
   | none => false
 
+/-- GHOST: the specification counts a layer step for every monitor held by a trainer that is in
+training mode while the layer is in training mode -/
+def ghostStep (s : State) : State :=
+  { s with mons := fun mid =>
+      if (s.mons mid).alive && (s.trainers (s.mons mid).owner).alive && (s.trainers (s.mons mid).owner).training
+          && s.layerTraining && (poolMids (s.trainers (s.mons mid).owner)).contains mid
+      then { s.mons mid with expected := (s.mons mid).expected + 1 } else s.mons mid }
+
+/-- the hooks that run during `layer(...)`: in list order, until one raises -/
+def ranHooks (s : State) : List (Nat × Nat) := s.post.takeWhile (fun e => !blocked s e)
+
+/-- every hook that ran pushed one observation into its reducer -/
+def countStep (s : State) (ran : List (Nat × Nat)) : State :=
+  { s with mons := fun mid =>
+      if ran.any (fun e => e.2 == mid) then { s.mons mid with count := (s.mons mid).count + 1 } else s.mons mid }
+
+/-- `for monitor in pool.monitors: monitor.clear()` -/
+def clearMons (s : State) (t : Nat) : State :=
+  { s with mons := fun mid =>
+      if (poolMids (s.trainers t)).contains mid then { s.mons mid with count := 0, expected := 0 } else s.mons mid }
+
 /-! ### The machine -/
 
 def stepCore (s : State) : Op → State × Out
   | .newTrainer kind =>
     (setTrainer { s with nTrainers := s.nTrainers + 1 } s.nTrainers ⟨kind, true, true, [], []⟩, .idx s.nTrainers)
   | .registerCell t n c v =>
-    let T := s.trainers t
-    if !T.alive then (s, .noref)
-    else if c ≥ s.topo.length then (s, .noref)                       -- no such cell object
-    else if (lookup T.cells n).isSome then (s, .err .ValueError)     -- already the name of an added cell
+    if !(s.trainers t).alive then (s, .noref)
+    else if c ≥ s.topo.length then (s, .noref)                                   -- no such cell object
+    else if (lookup (s.trainers t).cells n).isSome then (s, .err .ValueError)     -- already the name of an added cell
     else
-      -- add_cell: del_observed(name) (a no-op unless a cell died), cells_[name] = observed_[name] = cell
-      let s0 := delObserved s t n
-      let T0 := s0.trainers t
-      let s1 := setTrainer s0 t { T0 with cells := T0.cells ++ [(n, c)] }
-      -- the trainer kind's add_monitor calls, in order
-      let s2 := (template T.kind v).foldl
-        (fun s e => (addMonitor s t n e.1 e.2.1 e.2.2.1 e.2.2.2.1 e.2.2.2.2.1 e.2.2.2.2.2).1) s1
-      (s2, .ok)
+      -- add_cell: del_observed(name) (a no-op unless a cell died), cells_[name] = observed_[name] = cell,
+      -- then the trainer kind's add_monitor calls
+      (addTemplate (addCellEntry (delObserved s t n) t n c) t n (template (s.trainers t).kind v), .ok)
   | .delCell t n =>
-    let T := s.trainers t
-    if !T.alive then (s, .noref)
-    else if (lookup T.cells n).isNone then (s, .err .AttributeError)
-    else
-      let s1 := delObserved s t n
-      let T1 := s1.trainers t
-      (setTrainer s1 t { T1 with cells := T1.cells.filter (fun e => e.1 != n) }, .ok)
+    if !(s.trainers t).alive then (s, .noref)
+    else if (lookup (s.trainers t).cells n).isNone then (s, .err .AttributeError)
+    else (dropCell (delObserved s t n) t n, .ok)
   | .addMonitor t n mname sel unique prepend tags =>
     if !(s.trainers t).alive then (s, .noref)
     else addMonitor s t n mname sel unique prepend tags []
   | .delMonitor t n mname =>
-    let T := s.trainers t
-    if !T.alive then (s, .noref)
-    else match lookup T.groups n with
+    if !(s.trainers t).alive then (s, .noref)
+    else match lookup (s.trainers t).groups n with
       | none => (s, .err .AttributeError)
       | some g =>
-        if (lookup T.cells n).isNone then (s, .err .AttributeError)
+        if (lookup (s.trainers t).cells n).isNone then (s, .err .AttributeError)
         else match lookup g mname with
           | none => (s, .err .AttributeError)
-          | some mid =>
-            -- delete the entry; deregister only if no other entry aliases it (the D17 repair)
-            let gs1 := groupsErase T.groups n mname
-            let s1 := setTrainer s t { T with groups := gs1 }
-            let s2 := if (poolMids (s1.trainers t)).contains mid then s1 else deregisterMon s1 mid
-            -- delete the group if empty
-            let T2 := s2.trainers t
-            (setTrainer s2 t { T2 with groups := T2.groups.filter (fun g' => !(g'.1 == n && g'.2.isEmpty)) }, .ok)
+          | some mid => (delEntry s t n mname mid, .ok)
   | .trainerTrain t mode =>
-    let T := s.trainers t
-    if !T.alive then (s, .noref)
+    if !(s.trainers t).alive then (s, .noref)
     else
-      let s1 := setTrainer s t { T with training := mode }
-      ((distinctMids T).foldl (fun s mid => if mode then registerMon s mid else deregisterMon s mid) s1, .ok)
+      (setAll (setTrainer s t { s.trainers t with training := mode }) mode (distinctMids (s.trainers t)), .ok)
   | .layerTrain mode => ({ s with layerTraining := mode }, .ok)
   | .layerStep =>
-    -- GHOST: the specification counts the step for every monitor of a training trainer
-    let sg := { s with mons := fun mid =>
-      let m := s.mons mid
-      let T := s.trainers m.owner
-      if m.alive && T.alive && T.training && s.layerTraining && (poolMids T).contains mid
-      then { m with expected := m.expected + 1 } else m }
     -- CODE: `train_update=True, eval_update=False` hooks run iff the layer is training
-    if !s.layerTraining then (sg, .ok)
-    else
-      let ran := s.post.takeWhile (fun e => !blocked s e)
-      let counted : Nat → Monitor := fun mid =>
-        let m := sg.mons mid
-        if ran.any (fun e => e.2 == mid) then { m with count := m.count + 1 } else m
-      ({ sg with mons := counted }, if ran.length < s.post.length then .err .AttributeError else .ok)
+    if !s.layerTraining then (ghostStep s, .ok)
+    else (countStep (ghostStep s) (ranHooks s),
+          if (ranHooks s).length < s.post.length then .err .AttributeError else .ok)
   | .trainerStep t =>
-    let T := s.trainers t
-    if !T.alive then (s, .noref)
-    else if !(T.training && s.layerTraining) then (s, .ok)        -- every cell is skipped
+    if !(s.trainers t).alive then (s, .noref)
+    else if !((s.trainers t).training && s.layerTraining) then (s, .ok)        -- every cell is skipped
     else
-      (s, if T.cells.all (fun e => (required T.kind).all (fun r => monHasData s T e.1 r)) then .ok else .fail)
+      (s, if (s.trainers t).cells.all (fun e => (required (s.trainers t).kind).all
+            (fun r => monHasData s (s.trainers t) e.1 r)) then .ok else .fail)
   | .clear t =>
-    let T := s.trainers t
-    if !T.alive then (s, .noref)
-    else
-      ({ s with mons := fun mid =>
-          if (poolMids T).contains mid then { s.mons mid with count := 0, expected := 0 } else s.mons mid }, .ok)
+    if !(s.trainers t).alive then (s, .noref) else (clearMons s t, .ok)
   | .collect t =>
-    let T := s.trainers t
-    if !T.alive then (s, .noref)
-    else (setTrainer s t { T with alive := false }, .ok)
+    if !(s.trainers t).alive then (s, .noref)
+    else (setTrainer s t { s.trainers t with alive := false }, .ok)
 
 def step (s : State) (op : Op) : State × Out :=
   let r := stepCore s op
